@@ -50,6 +50,7 @@ def _std_run_rest(pid, tier, seed, work, c, states, trans, model_info, shards, g
     merged = {"accepted": 0, "n": 0, "rejected": [], "states": 0, "distinct": 0}
     batches_all = []
     drv_summaries = []
+    advisory = []
     for d in c["drivers"]:
         s = R.run_driver(d["module"], os.path.join(work, "drv_" + d["module"].split(".")[-1]), tier, seed,
                          shards=shards, timeout=d.get("timeout", 3000), extra=list(d.get("args", [])) + gen_args)
@@ -61,7 +62,19 @@ def _std_run_rest(pid, tier, seed, work, c, states, trans, model_info, shards, g
         for rej in mg["rejected"]:
             rej["driver"] = d["module"]
             rej["trace_module"] = d["trace"]
-        merged["rejected"] += mg["rejected"]
+        if d.get("advisory"):
+            # conformance with parts of the specification that go BEYOND the property (exact mapping function,
+            # decision-level derivation): deviations are reported, never turned into a verdict on the property
+            sigs = {}
+            for rej in mg["rejected"]:
+                for b in rej["bad"]:
+                    sigs[(b["c"], tuple(b["a"]))] = sigs.get((b["c"], tuple(b["a"])), 0) + 1
+            for (cl, at), n in sorted(sigs.items()):
+                R.log(f"SPEC-DEVIATION (advisory, not a verdict on {pid}): {cl} {list(at)} x{n} [{d['trace']}]")
+            advisory.append({"trace_module": d["trace"], "traces": mg["n"], "accepted": mg["accepted"],
+                             "deviations": [{"clause": k[0], "attrs": list(k[1]), "occurrences": v} for k, v in sigs.items()]})
+        else:
+            merged["rejected"] += mg["rejected"]
         batches_all += s["batches"]
     viol, hits, paths = {}, {}, []
     known = R.load_known()
@@ -91,6 +104,7 @@ def _std_run_rest(pid, tier, seed, work, c, states, trans, model_info, shards, g
         "known_findings_seen": [{"clause": k[0], "attrs": list(k[1]), "occurrences": h["n"]} for k, h in hits.items()],
         "violation_signatures": [{"clause": k[0], "attrs": list(k[1]), "occurrences": v["n"]} for k, v in viol.items()],
         "exhaustive": bool(c.get("exhaustive", False)),
+        "advisory_spec_conformance": advisory,
     }
     return {"coverage": cov, "violations": len(viol), "known": len(hits), "assumptions": c.get("assumptions", [])}
 
@@ -299,7 +313,7 @@ CHECKS["C03"] = _syn("C03", "depth limits respected, every feasible limit usable
     "crossover chains; raw draws are counted so that a rejection can be shown to be up-front",
     extra_assume=["the feasibility threshold is the minimum depth the implementation reports (its exactness is C05)"])
 # decision-level conformance: every production / union choice asked of the real decider, replayed on the program
-CHECKS["C03"]["drivers"].append({"module": "harness.drv_derive", "trace": "Trace_Derive"})
+CHECKS["C03"]["drivers"].append({"module": "harness.drv_derive", "trace": "Trace_Derive", "advisory": True})
 CHECKS["C10"] = _syn("C10", "the grammar is read-only during synthesis and search",
     "one trace per grammar: workloads at depths below / at / above the minimum (including failing and backtracking "
     "ones: dependent refinements over an empty context, exhausted stack genomes) followed by a full re-projection "
@@ -432,4 +446,4 @@ CHECKS["C08"] = {
 }
 
 # functional conformance: the GE phenotype EQUALS GEMapFn!MapForm evaluated by TLC on the same genes
-CHECKS["C07"]["drivers"].append({"module": "harness.drv_gemap", "trace": "Trace_GEMap"})
+CHECKS["C07"]["drivers"].append({"module": "harness.drv_gemap", "trace": "Trace_GEMap", "advisory": True})
